@@ -185,13 +185,63 @@ pub fn iter_protocol(_r: &dyn Runner, _tier: Tier, st: &St, out: &mut Vec<Edge>)
     out.push(Edge::Pop(Api::Typed, Sink::Downcast));
 }
 
+/// clone families (C08)
+pub fn clones(r: &dyn Runner, _tier: Tier, _st: &St, out: &mut Vec<Edge>) {
+    use crate::exec_clone::{N_TARGETS, N_THEN};
+    if r.cloneable() { for then in 0..2 * N_THEN { out.push(Edge::CloneVec { then }); } }
+    for then in 0..N_THEN { out.push(Edge::CloneEmpty { then }); }
+    for target in 0..N_TARGETS { for then in 0..N_THEN { out.push(Edge::CloneEmptyIn { target, then }); } }
+}
+
+/// lazy clone protocol (C09)
+pub fn lazies(r: &dyn Runner, tier: Tier, st: &St, out: &mut Vec<Edge>) {
+    if !r.cloneable() { return; }
+    let len = st.len as usize;
+    let maxd = 3;
+    for src in 0..crate::exec_misc::LZ_SRCS { for j in 0..len as u8 {
+        if src == 2 && j != 0 { continue; }
+        for depth in 1..=maxd { for uses in 0..=3u8 { for how in 0..crate::exec_misc::LZ_HOWS { for copies in 0..=2u8 {
+            if uses == 0 && how != 0 { continue; }
+            if tier == Tier::Quick && copies == 1 { continue; }
+            out.push(Edge::Lazy { src, j, depth, uses, how, copies });
+        } } } }
+    } }
+}
+
+/// forget families (C07)
+pub fn forgets(_r: &dyn Runner, tier: Tier, st: &St, out: &mut Vec<Edge>) {
+    use crate::exec_clone::N_THEN;
+    let len = st.len as usize;
+    let follows: Vec<u8> = if tier == Tier::Quick { vec![0, 1, 3, 5, 7, 9] } else { (0..N_THEN).collect() };
+    for op in 0..3u8 { for idx in 0..len.max(1) as u8 { if op == 0 && idx != 0 { continue; } for &f in &follows { out.push(Edge::ForgetHandle { op, idx, follow: f }); } } }
+    for a in 0..=len { for b in a..=len {
+        for pat in pats_upto(b - a + 1) {
+            for stage in 0..3u8 {
+                if stage != 0 && pat.n == 0 { continue; }
+                for &f in &follows {
+                    out.push(Edge::ForgetRange { splice: false, a: a as u8, b: b as u8, pat, stage, rn: 0, follow: f });
+                    for rn in [0u8, 2] { out.push(Edge::ForgetRange { splice: true, a: a as u8, b: b as u8, pat, stage, rn, follow: f }); }
+                }
+            }
+        }
+    } }
+}
+
+fn movers(out: &mut Vec<Edge>) {
+    out.push(Edge::Push(Api::Typed, Src::W));
+    out.push(Edge::Pop(Api::Typed, Sink::Downcast));
+}
+
 pub fn edges_for(prop: Prop, tier: Tier, r: &dyn Runner, st: &St) -> Vec<Edge> {
     let mut v = Vec::new();
     match prop {
         Prop::C01 => elementwise(r, tier, st, &mut v),
         Prop::C02 => { ranges(r, tier, st, true, &mut v); v.push(Edge::Push(Api::Typed, Src::W)); v.push(Edge::Pop(Api::Typed, Sink::Downcast)); }
         Prop::C14 => iter_protocol(r, tier, st, &mut v),
-        Prop::C03 | Prop::C05 => { elementwise(r, tier, st, &mut v); ranges(r, tier, st, true, &mut v); }
+        Prop::C08 => { clones(r, tier, st, &mut v); movers(&mut v); }
+        Prop::C09 => { lazies(r, tier, st, &mut v); movers(&mut v); }
+        Prop::C07 => { forgets(r, tier, st, &mut v); movers(&mut v); }
+        Prop::C03 | Prop::C05 => { elementwise(r, tier, st, &mut v); ranges(r, tier, st, true, &mut v); clones(r, tier, st, &mut v); lazies(r, tier, st, &mut v); }
         _ => {}
     }
     v
@@ -202,7 +252,9 @@ pub fn reports(prop: Prop, class: Class, e: &Edge) -> bool {
     let _ = e;
     if class == Class::Machinery { return true; }
     match prop {
-        Prop::C01 | Prop::C02 | Prop::C08 | Prop::C09 | Prop::C13 | Prop::C17 | Prop::C19 => matches!(class, Class::Vec | Class::Type | Class::Iter),
+        Prop::C09 => matches!(class, Class::Vec | Class::Type | Class::Own),
+        Prop::C01 | Prop::C02 | Prop::C13 | Prop::C17 | Prop::C19 => matches!(class, Class::Vec | Class::Type | Class::Iter),
+        Prop::C08 => matches!(class, Class::Vec | Class::Type | Class::Cap | Class::Mem),
         Prop::C03 => class == Class::Own,
         Prop::C04 => matches!(class, Class::Type | Class::Vec | Class::Own),
         Prop::C05 => class == Class::Mem,
@@ -210,7 +262,7 @@ pub fn reports(prop: Prop, class: Class, e: &Edge) -> bool {
         Prop::C10 => matches!(class, Class::Cap | Class::Vec),
         Prop::C11 => matches!(class, Class::Cap | Class::Vec | Class::Alloc),
         Prop::C12 => matches!(class, Class::Vec | Class::Mem),
-        Prop::C14 => matches!(class, Class::Iter | Class::Vec),
+        Prop::C14 => class == Class::Iter,
         Prop::C18 => class == Class::Alloc,
     }
 }
